@@ -21,7 +21,6 @@ import (
 	"github.com/glowlabs-org/gca-backend/glow"
 	"github.com/glowlabs-org/gca-backend/server"
 
-	"verifh/ev"
 	"verifh/pool"
 	"verifh/shim/vrand"
 )
@@ -47,9 +46,9 @@ func (m *cliModel) key() string {
 
 // c17Reply builds the reply variant as sent by the server named by signer.
 type c17Variant struct {
-	List    []server.AuthorizedServer
-	Mig     *server.EquipmentMigration
-	DevKey  glow.PublicKey
+	List   []server.AuthorizedServer
+	Mig    *server.EquipmentMigration
+	DevKey glow.PublicKey
 }
 
 func c17Variants(dev glow.PublicKey) map[string]func(cur string) c17Variant {
@@ -73,13 +72,19 @@ func c17Variants(dev glow.PublicKey) map[string]func(cur string) c17Variant {
 		return func(cur string) c17Variant { return c17Variant{List: f(cur), DevKey: dev} }
 	}
 	return map[string]func(string) c17Variant{
-		"L1":   list(func(c string) []server.AuthorizedServer { return []server.AuthorizedServer{srv("S1", false, 7000, c)} }),
-		"L12":  list(func(c string) []server.AuthorizedServer { return []server.AuthorizedServer{srv("S1", false, 7000, c), srv("S2", false, 7000, c)} }),
-		"L1b":  list(func(c string) []server.AuthorizedServer { return []server.AuthorizedServer{srv("S1", true, 7000, c)} }),
-		"L1p":  list(func(c string) []server.AuthorizedServer { return []server.AuthorizedServer{srv("S1", false, 7100, c)} }),
-		"L0b":  list(func(c string) []server.AuthorizedServer { return []server.AuthorizedServer{srv("S0", true, 7000, c)} }),
-		"Lbad": list(func(c string) []server.AuthorizedServer { return []server.AuthorizedServer{srv("S3", false, 7000, "G2")} }),
-		"Lmix": list(func(c string) []server.AuthorizedServer { return []server.AuthorizedServer{srv("S2", false, 7000, c), srv("S3", false, 7000, "G2")} }),
+		"L1": list(func(c string) []server.AuthorizedServer { return []server.AuthorizedServer{srv("S1", false, 7000, c)} }),
+		"L12": list(func(c string) []server.AuthorizedServer {
+			return []server.AuthorizedServer{srv("S1", false, 7000, c), srv("S2", false, 7000, c)}
+		}),
+		"L1b": list(func(c string) []server.AuthorizedServer { return []server.AuthorizedServer{srv("S1", true, 7000, c)} }),
+		"L1p": list(func(c string) []server.AuthorizedServer { return []server.AuthorizedServer{srv("S1", false, 7100, c)} }),
+		"L0b": list(func(c string) []server.AuthorizedServer { return []server.AuthorizedServer{srv("S0", true, 7000, c)} }),
+		"Lbad": list(func(c string) []server.AuthorizedServer {
+			return []server.AuthorizedServer{srv("S3", false, 7000, "G2")}
+		}),
+		"Lmix": list(func(c string) []server.AuthorizedServer {
+			return []server.AuthorizedServer{srv("S2", false, 7000, c), srv("S3", false, 7000, "G2")}
+		}),
 		"M":      mig(dev, "cur", "G3"),
 		"Mouter": mig(dev, "G2", "G3"),
 		"Minner": mig(dev, "cur", "cur-inner"),
@@ -272,7 +277,7 @@ func sortedServers(m map[glow.PublicKey]client.GCAServer) []string {
 func init() {
 	bfsSystems["c17cli"] = c17CliExec
 	checks["C17"] = func(tier string) int {
-		run := ev.NewRun("C17", tier, "model_checking")
+		run := newRun("C17", tier, "model_checking")
 		p := pool.New(0)
 		// server side
 		arg := opsArg{Name: "c17", Init: []string{"reg:G1:temp", "now:100"}, RestartCheck: false}
